@@ -1,80 +1,26 @@
 """C02 — query results match the SQL definition of the query.
 Spec: spec/SQLSem.tla (Rows / ResultOK).  Binding B: seeded random databases and query ASTs of the
 property's grammar are rendered to SQL, run on the real engine, and every recorded result is
-validated by TLC against the specification (spec/Trace_Query.tla).  Binding A: TLC enumerates small
-queries x databases (spec/MC_Query.tla) which are executed by the engine and validated the same way."""
-import os, time, json
+validated by TLC against the specification (spec/Trace_Query.tla)."""
 import lib, sqlcommon as sc
 
 PID = "C02"
 META = {
     "property_id": PID,
     "level": "model_checking",
-    "technique": "TLA+ query-meaning spec SQLSem.tla as oracle; TLC validates every recorded engine result (trace validation) and enumerates bounded query/database families whose laws it checks and whose cases are replayed on the engine",
+    "technique": "TLA+ query-meaning spec SQLSem.tla as oracle; TLC validates every recorded engine result (trace validation) and checks the design-level query laws on a bounded enumeration",
     "text": "The meaning of the C02 grammar (3VL filters, inner/left/right/cross joins, correlated and uncorrelated EXISTS/IN/NOT IN/scalar subqueries, GROUP BY + COUNT/SUM/MIN/MAX/AVG + HAVING, DISTINCT, UNION/INTERSECT/EXCEPT [ALL], ORDER BY, LIMIT/OFFSET over INT and VARCHAR columns under _bin and _ai_ci collations) is an executable TLA+ definition; TLC decides for every executed query whether the engine's rows are an acceptable result (bag/sortedness/slice semantics, ties and unordered results left open).",
-    "note": "Interpreted fragment only (DESIGN.md §3.1): int32-safe integers, strings over [0-9A-Za-z ], comparisons within one family/collation; trusted: TLC, the SQL renderer and value normaliser in harness/lib (representation only).",
+    "note": "Interpreted fragment only (DESIGN.md 3.1): int32-safe integers, strings over [0-9A-Za-z ], comparisons within one family/collation; trusted: TLC, the SQL renderer and value normaliser in harness/lib (representation only).",
 }
 
 
-def confirm(binp, gen_args, ev, scd):
-    """Re-run one case alone in a fresh process and re-validate it."""
-    out = os.path.join(scd, "confirm-%d.ndjson" % ev["id"])
-    lib.run_report([binp] + gen_args + ["-only", str(ev["id"]), "-out", out])
-    mms, _ = sc.validate_trace(out, chunk=1000, procs=1)
-    if mms:
-        # keep the isolated case (db + query events) so it can be replayed / promoted to a witness
-        d = os.path.join(lib.VERIF, "replays", PID)
-        os.makedirs(d, exist_ok=True)
-        keep = os.path.join(d, "case-seed%d-id%d.ndjson" % (lib.seed(), ev["id"]))
-        lib.shutil.copy(out, keep)
-        ev["case_file"] = keep
-    return len(mms) > 0
-
-
 def check(tier):
-    t0 = time.time()
-    binp = lib.build("sqlq")
-    v = lib.Verdict(PID)
     ndb, nq = (40, 25) if tier == "quick" else (600, 30)
-    with lib.Scratch() as scd:
-        nw = sc.run_witnesses(binp, PID, v, scd)
-        trace = os.path.join(scd, "trace.ndjson")
-        gen_args = ["-mode", "c02", "-seed", str(lib.seed()), "-dbs", str(ndb), "-queries", str(nq), "-depth", "2"]
-        rep = lib.run_report([binp] + gen_args + ["-out", trace], timeout=3000)
-        lib.log("[c02] generated %d cases in %.1fs" % (rep["cases"], time.time() - t0))
-        mms, states = sc.validate_trace(trace, chunk=80 if tier == "quick" else 400)
-        lib.log("[c02] validated, %d mismatches, %.1fs" % (len(mms), time.time() - t0))
-        evs = sc.load_events(trace)
-        for m in mms:
-            ev = evs[m["line"]]
-            if not confirm(binp, gen_args, ev, scd):
-                raise lib.Inconclusive("mismatch did not reproduce in isolation: %s" % ev.get("sql"))
-            v.add(sc.signature(PID, ev), {"sql": ev["sql"], "got": ev["res"], "expected_rows": sc.pretty_rows(m.get("exp", [])),
-                                          "id": ev["id"], "seed": lib.seed(), "gen_args": gen_args, "case_file": ev.get("case_file")})
-        rc = v.finish()
-        lib.write_evidence(PID, tier, "model_checking", {
-            "states": states, "transitions": states,
-            "traces_validated_against_impl": rep["cases"],
-            "samples": rep["samples"] or ["no multi-row sample"],
-            "evaluations": rep["cases"], "distinct_nontrivial": rep["nontrivial"],
-            "rule": "seeded random databases (2-3 tables, <=5 rows, NULLs, duplicates, random keys/indexes) x random queries of the C02 grammar, depth 2; non-trivial = the engine returned at least one row; every result validated by TLC against SQLSem!ResultOK",
-            "result_kinds": rep["extra"]["result_kinds"], "mismatches_reproduced": len(mms),
-            "witness_mismatches": nw,
-        }, time.time() - t0, violations=len(v.violations))
-        return rc
+    gen_args = ["-mode", "c02", "-seed", str(lib.seed()), "-dbs", str(ndb), "-queries", str(nq), "-depth", "2"]
+    return sc.driver_check(PID, tier, gen_args,
+                           "seeded random databases (2-3 tables, <=5 rows, NULLs, duplicates, random keys/indexes) x random queries of the C02 grammar, depth 2; non-trivial = the engine returned at least one row; every result validated by TLC against SQLSem!ResultOK; plus mc_cases_drawn (table, predicate) pairs drawn by TLC from the bounded enumeration MC_Query (12 query forms each), executed and validated the same way",
+                           chunk=80 if tier == "quick" else 400, mc_sample=150 if tier == "quick" else 4000)
 
 
 def replay(path):
-    """Re-run a recorded case file (db + q events) on the current tree and re-validate it."""
-    binp = lib.build("sqlq")
-    if path.endswith(".json"):
-        path = json.load(open(path))["first"]["detail"]["case_file"]
-    with lib.Scratch() as scd:
-        out = os.path.join(scd, "replay.ndjson")
-        lib.run_report([binp, "-mode", "exec", "-in", path, "-out", out])
-        mms, _ = sc.validate_trace(out, chunk=1000, procs=1)
-        evs = sc.load_events(out)
-        for m in mms:
-            print("VIOLATION property=%s replay=%s" % (PID, path))
-            print(json.dumps({"sql": evs[m["line"]].get("sql"), "got": evs[m["line"]].get("res"), "expected": m.get("exp")})[:2000])
-        return 1 if mms else 0
+    return sc.replay_case(PID, path)
